@@ -246,7 +246,7 @@ class Oracles:
             if (k in reg) != (k in act):
                 self.v("C10", "after `%s`: feature %s is %sregistered but %sactive" % (line, k, "" if k in reg else "not ", "" if k in act else "not "), line)
         if kind in ("enable", "disable"):
-            names = [E.KEYNAME[int(x)] for x in line.split()[1].split(",")]
+            names = [E.KEYNAME[int(x)] for x in line.split()[1].split(",") if x != "-"]
             unknown = [k for k in names if k not in avail]
             if unknown:
                 if code != 13:
@@ -299,13 +299,13 @@ class Oracles:
             return
         if kind == "enable" and code == 0:
             toks_ = line.split()
-            names_ = [E.KEYNAME[int(x)] for x in toks_[1].split(",")]
+            names_ = [E.KEYNAME[int(x)] for x in toks_[1].split(",") if x != "-"]
             if toks_[2] == "0":
                 self.unfresh = getattr(self, "unfresh", set()) | set(names_)
             else:
                 self.unfresh = getattr(self, "unfresh", set()) - set(names_)
         if kind == "disable" and code == 0:
-            self.unfresh = getattr(self, "unfresh", set()) - {E.KEYNAME[int(x)] for x in line.split()[1].split(",")}
+            self.unfresh = getattr(self, "unfresh", set()) - {E.KEYNAME[int(x)] for x in line.split()[1].split(",") if x != "-"}
         self.check_toggle(t, line, kind, code, before)
         if kind in ("enable", "disable"):
             # snapshots taken under different registries are not comparable: the timeline oracle
